@@ -1,5 +1,6 @@
 (* Lemmas about the grid file model (GridIOModel.v). *)
 From Coq Require Import ZArith List Bool Reals Lra Lia Psatz Arith.
+From Flocq Require Import Core.Raux.
 From CV Require Import Base.Num Base.RNum C15.GridModel C15.GridProofs C15.GridIOModel.
 Import ListNotations.
 
@@ -1084,3 +1085,95 @@ Section Norm.
     - exact Hs.
   Qed.
 End Norm.
+
+(* ------------------------------------------------------------------ decimal formatting: error bound over R *)
+Section Decimal.
+  Local Open Scope R_scope.
+
+  Lemma p10_R n : p10 Rops n = 10 ^ n.
+  Proof. induction n as [|n IH]; cbn [p10 pow]; [reflexivity|]. rewrite IH. reflexivity. Qed.
+
+  Lemma scale10_R e x : scale10 Rops e x = x * powerRZ 10 e.
+  Proof.
+    destruct e as [|q|q]; cbn [scale10 powerRZ].
+    - lra.
+    - rewrite p10_R. reflexivity.
+    - rewrite p10_R. reflexivity.
+  Qed.
+
+  Lemma p10pos e : 0 < powerRZ 10 e.
+  Proof. apply powerRZ_lt. lra. Qed.
+
+  Lemma round_at_err k x : Rabs (round_at Rops k x - x) <= / 2 * powerRZ 10 (- k).
+  Proof.
+    unfold round_at. rewrite !scale10_R. unfold nhalf; cbn.
+    set (y := x * powerRZ 10 k).
+    pose proof (Zfloor_lb (y + 1 / 2)) as H1. pose proof (Zfloor_ub (y + 1 / 2)) as H2.
+    set (z := IZR (Zfloor (y + 1 / 2))) in *.
+    assert (Hx : x = y * powerRZ 10 (- k)).
+    { unfold y. rewrite Rmult_assoc, <- powerRZ_add by lra. replace (k + - k)%Z with 0%Z by lia. cbn. lra. }
+    clearbody z. clearbody y. subst x.
+    rewrite <- Rmult_minus_distr_r, Rabs_mult.
+    rewrite (Rabs_right (powerRZ 10 (- k))) by (left; apply p10pos).
+    apply Rmult_le_compat_r; [left; apply p10pos|].
+    apply Rabs_le. lra.
+  Qed.
+
+  Lemma exp_up_lb a : forall fuel e, powerRZ 10 e <= a -> powerRZ 10 (exp_up Rops fuel e a) <= a.
+  Proof.
+    induction fuel as [|f IH]; intros e H; cbn [exp_up]; auto.
+    rewrite scale10_R. cbn. unfold Rleb'. destruct (Rle_dec (1 * powerRZ 10 (e + 1)) a); auto.
+    apply IH. lra.
+  Qed.
+
+  Lemma exp_down_lb a : forall fuel e, powerRZ 10 (e - Z.of_nat fuel) <= a -> powerRZ 10 (exp_down Rops fuel e a) <= a.
+  Proof.
+    induction fuel as [|f IH]; intros e H; cbn [exp_down].
+    - replace (e - Z.of_nat 0)%Z with e in H by lia. exact H.
+    - rewrite scale10_R. cbn. unfold Rltb. destruct (Rlt_dec a (1 * powerRZ 10 e)); [|lra].
+      apply IH. replace (e - 1 - Z.of_nat f)%Z with (e - Z.of_nat (S f))%Z by lia. exact H.
+  Qed.
+
+  Lemma dec_exp_lb fuel a : powerRZ 10 (- Z.of_nat fuel) <= a -> powerRZ 10 (dec_exp Rops fuel a) <= a.
+  Proof.
+    intros H. unfold dec_exp. cbn. unfold Rleb'. destruct (Rle_dec 1 a).
+    - apply exp_up_lb. cbn. exact r.
+    - apply exp_down_lb. exact H.
+  Qed.
+
+  (* |read(write x) - x| <= 1/2 * 10^(1-p) * |x| *)
+  Lemma dec_round_err p fuel x : powerRZ 10 (- Z.of_nat fuel) <= Rabs x \/ x = 0 ->
+    Rabs (dec_round Rops p fuel x - x) <= / 2 * powerRZ 10 (1 - Z.of_nat p) * Rabs x.
+  Proof.
+    intros H. unfold dec_round. cbn. unfold Reqb'. destruct (Req_EM_T x 0) as [->|Hx].
+    - replace (0 - 0) with 0 by ring. rewrite Rabs_R0. lra.
+    - destruct H as [H|H]; [|contradiction].
+      rewrite nabs_R. set (e := dec_exp Rops fuel (Rabs x)).
+      assert (He : powerRZ 10 e <= Rabs x) by (apply dec_exp_lb; exact H).
+      eapply Rle_trans; [apply round_at_err|].
+      replace (- (Z.of_nat p - 1 - e))%Z with ((1 - Z.of_nat p) + e)%Z by lia.
+      rewrite powerRZ_add by lra. rewrite Rmult_assoc.
+      apply Rmult_le_compat_l; [lra|]. apply Rmult_le_compat_l; [left; apply p10pos | exact He].
+  Qed.
+
+  (* the raw form with its numbers formatted at p digits: every element comes back rounded, nothing else changes *)
+  Lemma fmt_nums p fuel (xs : list R) : fmt_toks Rops p fuel (map TNum xs) = map TNum (map (dec_round Rops p fuel) xs).
+  Proof. unfold fmt_toks. rewrite !map_map. reflexivity. Qed.
+
+  Lemma strip_fmt p fuel (s : list (tok R)) : strip (fmt_toks Rops p fuel s) = fmt_toks Rops p fuel (strip s).
+  Proof.
+    induction s as [|t s IH]; [reflexivity|]. unfold fmt_toks, strip in *. cbn [map filter].
+    destruct t; cbn [fmt_tok is_nl negb filter map]; rewrite ?IH; reflexivity.
+  Qed.
+
+  Lemma raw_formatted_roundtrip p fuel buf (g g0 : grid R) :
+    grid_wf g -> grid_wf g0 -> same_shape g0 g ->
+    read_raw Rops g0 (fmt_toks Rops p fuel (write_raw buf g))
+    = Some (set_data g0 (map (dec_round Rops p fuel) (gr_data g)), []).
+  Proof.
+    intros Hwf Hwf0 Hs. unfold read_raw. rewrite strip_fmt, strip_write_raw, fmt_nums by auto.
+    pose proof (read_raw_s_roundtrip Rops (set_data g (map (dec_round Rops p fuel) (gr_data g))) g0 []) as H.
+    cbn [set_data gr_data] in H. rewrite app_nil_r in H. apply H; auto.
+    destruct Hwf as (A & B & C & D). unfold grid_wf, set_data. cbn [gr_data gr_mult gr_nx]. rewrite map_length. repeat split; auto.
+  Qed.
+End Decimal.
